@@ -906,8 +906,16 @@ Stylesheet::addTemplate(
                     }
                     else if (data[i].getTargetType() == XPath::TargetData::eAny)
                     {
+                        // A pattern that starts with key() can match
+                        // any kind of node...
+                        addToList(m_nodePatternList, newMatchPat);
+
                         addToList(m_elementAnyPatternList, newMatchPat);
                         addToList(m_attributeAnyPatternList, newMatchPat);
+                        addToList(m_commentPatternList, newMatchPat);
+                        addToList(m_textPatternList, newMatchPat);
+                        addToList(m_piPatternList, newMatchPat);
+                        addToList(m_rootPatternList, newMatchPat);
                     }
                 }
                 else
